@@ -106,14 +106,23 @@ func (m *machine) execKernel(name string, s M) any {
 	res := M{}
 	for impl := 0; impl < 2; impl++ {
 		a := append([]decimal.Word(nil), mem...)
-		z, x := a[zo:zo+n], a[xo:xo+n]
+		// the sources may be LONGER than the destination (xn, yn > n): the kernels take their length from z
+		// (decKaratsubaAdd/Sub call add10VV/add10VW/sub10VW with the rest of the buffer as source)
+		xn, yn := n, n
+		if v, ok := s["xn"]; ok && v != nil {
+			xn = int(num(s, "xn"))
+		}
+		if v, ok := s["yn"]; ok && v != nil {
+			yn = int(num(s, "yn"))
+		}
+		z, x := a[zo:zo+n], a[xo:xo+xn]
 		var c decimal.Word
 		var c2 decimal.Word
 		two := false
 		switch {
 		case decimal.VerifVV[name][0] != nil:
 			yo := int(num(s, "yo"))
-			c = decimal.VerifVV[name][impl](z, x, a[yo:yo+n])
+			c = decimal.VerifVV[name][impl](z, x, a[yo:yo+yn])
 		case decimal.VerifVW[name][0] != nil:
 			c = decimal.VerifVW[name][impl](z, x, decimal.Word(unum(s, "y")))
 		case decimal.VerifVU[name][0] != nil:
